@@ -77,7 +77,8 @@ def _get_uses_of(node: ast.AST, scope: ast.AST, source: str) -> Iterable[ast.Nam
         n_end = (refnode.end_lineno, refnode.end_col_offset)
         if end < n_start:
             yield refnode
-        elif is_maybe_unordered_scope and n_end < start:
+        elif n_end < start and (is_maybe_unordered_scope or ctx_store_candidates):
+            # Above node, but below another assignment to the name, or run again later
             yield refnode
 
 
